@@ -29,6 +29,7 @@ pub struct EnvSpec {
     pub merge_fan_in: usize,
     pub read_chunk: usize,
     pub pending_every: u64,
+    pub write_buffer: u64,
     pub disk_faults: Vec<Fault>,
     pub compression: String,
     pub sort_spill_reservation: usize,
@@ -67,7 +68,7 @@ impl EnvSpec {
             "pool": {"kind": kind, "limit": limit, "neighbour": neighbour},
             "max_spill_file": *rng.pick(&[1u64, 200, 2_000, 100_000_000]),
             "merge_fan_in": *rng.pick(&[0u64, 0, 2, 2, 3, 8]),
-            "disk": {"read_chunk": *rng.pick(&[0u64, 0, 1, 13, 100]), "pending_every": *rng.pick(&[0u64, 0, 1, 3]), "faults": []},
+            "disk": {"read_chunk": *rng.pick(&[0u64, 0, 1, 13, 100]), "pending_every": *rng.pick(&[0u64, 0, 1, 3]), "write_buffer": *rng.pick(&[0u64, 0, 0, 24, 200, 8192]), "faults": []},
             "compression": *rng.pick(&["uncompressed", "uncompressed", "lz4_frame", "zstd"]),
             "sort_spill_reservation": *rng.pick(&[0u64, 64, 1024, 10_485_760]),
             "sort_in_place_threshold": *rng.pick(&[0u64, 512, 1_048_576]),
@@ -99,6 +100,7 @@ impl EnvSpec {
             merge_fan_in: v.get("merge_fan_in").and_then(|x| x.as_u64()).unwrap_or(0) as usize,
             read_chunk: disk.get("read_chunk")?.as_u64()? as usize,
             pending_every: disk.get("pending_every")?.as_u64()?,
+            write_buffer: disk.get("write_buffer").and_then(|x| x.as_u64()).unwrap_or(0).min(1 << 20),
             disk_faults,
             compression: v.get("compression")?.as_str()?.to_string(),
             sort_spill_reservation: v.get("sort_spill_reservation")?.as_u64()? as usize,
@@ -117,6 +119,7 @@ impl EnvSpec {
     pub fn build(&self) -> Ctx {
         let pool = NeighbourPool::new(&self.pool_kind, self.pool_limit, self.neighbour.clone());
         let disk = SimDisk::new(self.disk_faults.clone(), self.read_chunk, self.pending_every);
+        disk.set_write_buffer(self.write_buffer);
         let rt = RuntimeEnvBuilder::new()
             .with_memory_pool(pool.clone())
             .with_disk_manager_builder(
